@@ -61,6 +61,10 @@ impl<'a> WireFormat<'a> for SOA<'a> {
         let mname = Name::parse(data, position)?;
         let rname = Name::parse(data, position)?;
 
+        if *position + 20 > data.len() {
+            return Err(crate::SimpleDnsError::InsufficientData);
+        }
+
         let serial = u32::from_be_bytes(data[*position..*position + 4].try_into()?);
         let refresh = i32::from_be_bytes(data[*position + 4..*position + 8].try_into()?);
         let retry = i32::from_be_bytes(data[*position + 8..*position + 12].try_into()?);
